@@ -355,6 +355,11 @@ def gen_cases(rng, tier):
     #      EVERY position (first, middle, last), conflicts between ANY pair (first/later, later/later):
     #      exhaustive over {None, KM, M, S}^n for n <= 4 (n = 3 for the fixed-arity builders), random beyond
     alphabet = [None, 'KM', 'M', 'S']
+    def dtypes(fn, n):
+        dt = [rng.choice('ifb') for _ in range(n)]
+        if fn == 'Matrix.from_scalars' and 'f' not in dt:
+            dt[rng.randrange(n)] = 'f'          # a Matrix needs floating-point data (TypeError otherwise, not a units matter)
+        return ''.join(dt)
     for fn in NARY:
         arities = NARY_ARITY.get(fn, [2, 3, 4])
         for n in arities:
@@ -363,13 +368,20 @@ def gen_cases(rng, tier):
                         and rng.random() < 0.6:
                     continue
                 add(op='nary', fn=fn, us=list(us), shape=rng.choice([[], [2]]),
-                    plain=[rng.random() < 0.5 for _ in us])
+                    plain=[rng.random() < 0.5 for _ in us], dt=dtypes(fn, n))
         for _ in range(120 if thorough else 25):
             n = rng.choice(arities) if fn in NARY_ARITY else rng.randint(3, 5)
             base = gen_unit(rng)
             pool_n = [None, None, base, ['*', base, ['/', 'M', 'KM']], ['/', ['*', base, 'KM'], 'M'], gen_unit(rng), 'DEG']
             add(op='nary', fn=fn, us=[rng.choice(pool_n) for _ in range(n)], shape=rng.choice([[], [2]]),
-                plain=[rng.random() < 0.5 for _ in range(n)])
+                plain=[rng.random() < 0.5 for _ in range(n)], dt=dtypes(fn, n))
+    # component data types drawn independently, in EVERY order: exhaustive over units x {int, float, bool}^n, n <= 3
+    for fn in ('stack:Scalar', 'Vector.from_scalars', 'stack:Pair'):
+        for n in (2, 3):
+            for us in itertools.product(alphabet, repeat=n):
+                for dt in itertools.product('ifb' if fn != 'stack:Pair' else 'if', repeat=n):
+                    add(op='nary', fn=fn, us=list(us), shape=rng.choice([[], [2]]),
+                        plain=[rng.random() < 0.3 for _ in us], dt=''.join(dt))
     # classes that disallow units
     for cls in NO_UNITS:
         for u in [None, 'UNITLESS', 'KM', 'DEG', ['/', 'KM', 'S']]:
